@@ -197,8 +197,37 @@ func paramBehind(b ssa.Value) *ssa.Parameter {
 		return p
 	}
 	if a, ok := b.(*ssa.Alloc); ok {
-		if v := singleStore(a); v != nil {
-			if p, ok := v.(*ssa.Parameter); ok {
+		// a captured variable cell: exactly one store (the parameter), other referrers are closures
+		// that only read it
+		var val ssa.Value
+		n := 0
+		for _, ref := range *a.Referrers() {
+			switch r := ref.(type) {
+			case *ssa.Store:
+				if r.Addr != a {
+					return nil
+				}
+				n++
+				val = r.Val
+			case *ssa.MakeClosure:
+				fn := r.Fn.(*ssa.Function)
+				for i, bnd := range r.Bindings {
+					if bnd != a || i >= len(fn.FreeVars) {
+						continue
+					}
+					for _, fr := range *fn.FreeVars[i].Referrers() {
+						if st, ok := fr.(*ssa.Store); ok && st.Addr == fn.FreeVars[i] {
+							return nil
+						}
+					}
+				}
+			case *ssa.UnOp, *ssa.DebugRef:
+			default:
+				return nil
+			}
+		}
+		if n == 1 {
+			if p, ok := val.(*ssa.Parameter); ok {
 				return p
 			}
 		}
